@@ -543,7 +543,7 @@ func genC15(r *rand.Rand, tier string, idx int) *World {
 		case 1:
 			tplB.Tolerate = nil
 		case 2:
-			tplB.AffinityKind = pick(r, "zoneA", "notPoolY", "hasZone")
+			tplB.AffinityKind = pick(r, "zoneA", "notPoolY", "hasZone", "hasZoneNotN1", "nameNotN1")
 		}
 	}
 	e := &EDSDef{NS: "ns1", Name: "foo", Initial: "A", Templates: map[string]*TemplateDef{"A": tpl, "B": tplB, "C": tplB.withLetter("C")}}
